@@ -198,7 +198,28 @@ inline void partial_merge()
     }
     closedir(d);
   }
-  rmdir(partial_dir().c_str());
+}
+inline void partial_cleanup()
+{
+  if (!partial_dir().empty())
+    rmdir(partial_dir().c_str());
+}
+
+// Exploration runs with symbolize=0 (a symbolised report costs ~200 ms per crashed history); a
+// replay wants the symbolised report, so it re-executes itself once with symbolize=1.
+inline void reexec_symbolized(char **argv)
+{
+  if (getenv("C09_REEXEC"))
+    return;
+  const char *a = getenv("ASAN_OPTIONS");
+  std::string o = a ? a : "";
+  size_t p = o.find("symbolize=0");
+  if (p == std::string::npos)
+    return;
+  o.replace(p, 11, "symbolize=1");
+  setenv("ASAN_OPTIONS", o.c_str(), 1);
+  setenv("C09_REEXEC", "1", 1);
+  execv("/proc/self/exe", argv);
 }
 
 inline size_t heap_now()
